@@ -150,6 +150,24 @@ def run(chk, facts, tier, only=None):
         chk.expect(okmul, "slice:raw-length", "[T]::idl_serialize: the raw byte view must be len * element_size bytes long")
 
     def r4():
+        # the key of the memo (and the payload of Knot) identifies the Rust type: `type_name` alone does not — two types of one name declared
+        # in different blocks of a function, or in two versions of a crate, share it — so the key carries a component that is unique per
+        # monomorphic type (the address of a function instantiated at T, or core::any::TypeId)
+        tid = c.fn(r"^candid::types::internal::TypeId::of$")
+        chk.analysed(tid["key"])
+        lits = [x for x in walk(tid["body"]) if x.get("k") == "struct" and (x.get("res") or {}).get("path", "").endswith("internal::TypeId")]
+        if not lits:
+            raise AnchorMissing("TypeId::of: the struct literal `TypeId { .. }` was not found")
+        unique = []
+        for fname, fv in lits[0]["fields"]:
+            for y in walk(fv):
+                if (y.get("k") == "path" and (y.get("res") or {}).get("kind") in ("Fn", "AssocFn") and y.get("ga") and y.get("k") != "call" and "T" in (y.get("ga") or []))                         or (y.get("k") == "call" and (callee(y) or "").endswith("core::any::TypeId::of")):
+                    unique.append(fname)
+        chk.expect(bool(unique), "memo:key-identifies-the-rust-type",
+                   f"TypeId::of builds the memo key from {[f for f, _ in lits[0]['fields']]} only: no component is unique per Rust type (`type_name::<T>()` is "
+                   f"the same for two types of one name declared in different blocks, so both share one memo entry and one of them is encoded with "
+                   f"the other's type table — the message does not decode)", where=f"{tid['span']['file']}:{lits[0].get('ln')}",
+                   ok_detail=f"field(s) {unique} hold a per-type address / core TypeId")
         tr = [h for k, h in c.hir.items() if k == "candid::types::CandidType::ty"]
         if not tr:
             raise AnchorMissing("default method CandidType::ty not found")
